@@ -19,6 +19,7 @@ Also: a panic audit of the predicate.  The agreement of this reference function 
 generators on accepted boards (a pinned piece can never resolve a check) is a geometric argument
 recorded in DESIGN.md, not mechanised."""
 from ..facts import callee_name as facts_callee
+from .names import names
 from .. import sym, lift, setalg, panics
 from . import movegen, zob
 from .movegen import (SELF, STM, NSTM, OWN, OCC, PINNED, CHECKERS, K, AND, OR, NOT, PIECE, FILE, bb, targets)
@@ -150,8 +151,17 @@ def and3(vals):
 
 def check_is_legal(ctx, f, L):
     body = f.need(B + "::is_legal")
-    noin = lambda n: False if (n.endswith("_legals") or n.endswith("::king_is_legal") or n.endswith("::can_castle") or n.endswith("::king_safe_on")) else None
-    paths = sym.SymExec(f, body, inline=noin).run()
+    N = names(f)
+    opaque_here = set(N.generators.values()) | {N.can_castle, N.king_safe_on, N.roster}
+    kil = N.king_is_legal
+
+    def noin(n):
+        if n in opaque_here:
+            return False
+        if kil is not None and n == kil:
+            return True            # the king branch is read as part of is_legal, whether or not it is a function of its own
+        return None
+    paths = sym.SymExec(f, body, inline=noin, max_depth=6).run()
     where = loc(body)
     ctx.saw("%s: %d paths" % (body.key, len(paths)))
     seen = set()
@@ -161,7 +171,8 @@ def check_is_legal(ctx, f, L):
             ctx.fail("is_legal:path-end", "is_legal has a path ending in %s" % p.end, where)
             continue
         n += 1
-        F = gather(L, p, {})
+        KS = king_state()
+        F = gather(L, p, {"king": lambda e_, v_: king_decision(KS, N, e_, v_)})
         for u in F.unknown:
             ctx.fail("is_legal:unknown-decision", "is_legal branches on a condition the reference function does not know: %s" % sym.show(u)[:200], where)
         ret = L.lift(p.ret)
@@ -172,8 +183,53 @@ def check_is_legal(ctx, f, L):
         isk = F.b.get("is_king")
         if isk is True:
             case = "king"
+            if KS["promo"] is not None and F.promo is None:
+                F.promo = "Some" if KS["promo"] else "None"
             conj["no promotion"] = None if F.promo is None else (F.promo == "None")
-            residual = ("call", B + "::king_is_legal", (("ptr", ("P", "self"), (), False), MV))
+            # castling (either wing) or an ordinary step to a safe square
+            for w, (kf_, rf_) in (("short", ("G", "F")), ("long", ("C", "D"))):
+                ws = KS["wing"][w]
+                if ws["args"] is not None:
+                    ctx.check(ws["args"] == (("enum", FILE, kf_), ("enum", FILE, rf_)), "king:%s:dest-files" % w,
+                              "%s castling is tested with destination files %s instead of (%s, %s)" % (w, [sym.show(a) for a in ws["args"]], kf_, rf_), where)
+            chk_empty = KS["chk_empty"]
+            if chk_empty is None and F.nchk is not None:
+                chk_empty = F.nchk == 0
+            if chk_empty is None and F.b.get("chk_empty") is not None:
+                chk_empty = F.b["chk_empty"]
+            dis = {}
+            for w in ("short", "long"):
+                ws = KS["wing"][w]
+                dis[w] = and3([chk_empty, ws["some"], ws["at"] if ws["some"] else (False if ws["some"] is False else None),
+                               ws["can"] if (ws["some"] and ws["at"]) else (False if (ws["some"] is False or ws["at"] is False) else None)])
+            step = KS["step"]
+            if step is None:
+                step_set_ = AND(("kingmoves", FROM), NOT(OWN))
+                for (s_, sq_, hv_) in F.has:
+                    if sq_ == TO and setalg.equivalent(s_, step_set_):
+                        step = hv_
+            base = and3(list(conj.values()))
+            kcase = None
+            if ret == sym.TRUE:
+                ok = base is True and (dis["short"] is True or dis["long"] is True)
+                ctx.check(ok, "king:true-justified", "is_legal answers true for a king move on a path where neither castling disjunct is fully established (%s, %s)" % (conj, dis), where,
+                          sample={"case": "castle", "answer": True} if ("king", "T") not in seen else None)
+                kcase = "T"
+            elif ret == sym.FALSE:
+                ok = base is False or (dis["short"] is False and dis["long"] is False and step is False)
+                ctx.check(ok, "king:false-justified",
+                          "is_legal answers false for a king move although nothing of the reference function is refuted (%s, castles %s, step %s)" % (conj, dis, step), where)
+                kcase = "F"
+            else:
+                ok = ret[0] == "call" and ret[1] == N.king_safe_on and ret[2][1] == TO and ret[2][0][0] == "ptr" and ret[2][0][1] == ("P", "self") \
+                    and base is True and dis["short"] is False and dis["long"] is False and step is True
+                ctx.check(ok, "king:step-residual",
+                          "is_legal returns %s for a king move on a path where (%s, castles %s, ordinary step %s); required king_safe_on(mv.to) exactly when both castles are refuted and the step is admissible"
+                          % (sym.show(ret)[:120], conj, dis, step), where, sample={"case": "king step", "returns": "king_safe_on(mv.to)"} if ("king", "S") not in seen else None)
+                kcase = "S"
+            seen.add(("king", kcase))
+            seen.add(("king", "R"))
+            continue
         elif isk is False:
             pin = F.b.get("pinned_from")
             if pin is False:
@@ -250,7 +306,7 @@ def check_is_legal(ctx, f, L):
             if residual is None:
                 ok = ret == sym.TRUE
             elif residual[0] == "pawn-generator":
-                ok = ret[0] == "call" and ret[1] == movegen.GEN["Pawn"] and len(ret) > 3 and residual[1] in ret[3] \
+                ok = ret[0] == "call" and ret[1] == N.generators["Pawn"] and len(ret) > 3 and residual[1] in ret[3] \
                     and ret[2][0][0] == "ptr" and ret[2][0][1] == ("P", "self") and ret[2][1] == ("bbof", FROM)
                 # listener: |moves| moves.to.has(mv.to)
                 if ok:
@@ -286,102 +342,43 @@ def check_is_legal(ctx, f, L):
     ctx.check(need <= got, "is_legal:cases", "piece kinds not recognised on any path: %s" % sorted(need - got), where)
 
 
-def check_king_is_legal(ctx, f, L):
-    body = f.need(B + "::king_is_legal")
-    noin = lambda n: False if (n.endswith("::can_castle") or n.endswith("::king_safe_on")) else None
-    # parameters other than (self, mv) are bound to what every caller passes (the same function of the board)
-    binding = {}
-    okb = True
-    for k, cb in f.bodies.items():
-        if not cb.crate.startswith("cozy_chess") or not any(facts_callee(t_) == body.key for _, t_ in cb.calls()):
-            continue
-        cps = sym.SymExec(f, cb, inline=lambda n: False if (n == body.key or n.endswith("_legals") or n.endswith("::can_castle") or n.endswith("::king_safe_on")) else None).run()
-        for p in cps:
-            for e in p.events:
-                if e.kind == "call" and e.name == body.key:
-                    for i, a in enumerate(e.args):
-                        pn = body.local_name(i + 1)
-                        if pn in ("self", "mv"):
-                            continue
-                        if pn in binding and binding[pn] != a:
-                            okb = False
-                        binding.setdefault(pn, a)
-    extra = [body.local_name(i) for i in range(1, body.argc + 1) if body.local_name(i) not in ("self", "mv")]
-    ctx.check(okb and set(extra) <= set(binding), "king:caller-binding",
-              "king_is_legal takes parameters %s that its callers do not bind to one function of the board" % extra, loc(body))
-    paths = sym.SymExec(f, body, inline=noin, params=binding or None).run()
-    where = loc(body)
-    ctx.saw("%s: %d paths" % (body.key, len(paths)))
+def king_state():
+    return {"chk_empty": None, "promo": None, "step": None,
+            "wing": {"short": {"some": None, "at": None, "can": None, "args": None}, "long": {"some": None, "at": None, "can": None, "args": None}}}
+
+
+def king_decision(KS, N, e, v):
+    """record a decision of the king branch (castle right present, destination is its rook square, can_castle, ordinary
+    step admissible, checkers empty); -> True when the decision was recognised"""
     rights = ("get", "castle_rights", SELF, STM)
     back = ("relrank", 0, STM)
     step_set = AND(("kingmoves", FROM), NOT(OWN))
-    seen = set()
-    n = 0
-    for p in paths:
-        if p.end != "return":
-            ctx.fail("king:path-end", "king_is_legal has a path ending in %s" % p.end, where)
-            continue
-        n += 1
-        st = {"chk_empty": None, "promo": None, "step": None}
-        wing = {"short": {"some": None, "at": None, "can": None, "args": None}, "long": {"some": None, "at": None, "can": None, "args": None}}
-        for c in p.conds:
-            e, v = L.lift(c[0]), c[1]
-            if e == ("isempty", CHECKERS):
-                st["chk_empty"] = bool(v)
-            elif e == ("len", CHECKERS) and isinstance(v, int):
-                st["chk_empty"] = (v == 0)
-            elif is_opt_test(e, PROMO):
-                s_ = opt_test(e, v, PROMO)
-                st["promo"] = None if s_ is None else (s_ == "Some")
-            elif e[0] == "has" and e[2] == TO and setalg.equivalent(e[1], step_set):
-                st["step"] = bool(v)
-            else:
-                done = False
-                for w in ("short", "long"):
-                    rf = ("field", rights, w)
-                    pl = zob.payload(rf)
-                    if is_opt_test(e, rf):
-                        s_ = opt_test(e, v, rf)
-                        wing[w]["some"] = None if s_ is None else (s_ == "Some")
-                        done = True
-                    elif e[0] == "bin" and e[1] == "Eq" and set((e[2], e[3])) == {("sq", pl, back), TO}:
-                        wing[w]["at"] = bool(v)
-                        done = True
-                    elif e[0] == "call" and e[1] == B + "::can_castle" and e[2][1] == pl:
-                        wing[w]["can"] = bool(v)
-                        wing[w]["args"] = (e[2][2], e[2][3])
-                        done = True
-                if not done:
-                    ctx.fail("king:unknown-decision", "king_is_legal branches on a condition the reference function does not know: %s" % sym.show(e)[:200], where)
-        # castle disjuncts
-        dis = {}
-        for w, (kf, rf_) in (("short", ("G", "F")), ("long", ("C", "D"))):
-            ws = wing[w]
-            if ws["args"] is not None:
-                ctx.check(ws["args"] == (("enum", FILE, kf), ("enum", FILE, rf_)), "king:%s:dest-files" % w,
-                          "%s castling is tested with destination files %s instead of (%s, %s)" % (w, [sym.show(a) for a in ws["args"]], kf, rf_), where)
-            dis[w] = and3([st["chk_empty"], ws["some"], ws["at"] if ws["some"] else (False if ws["some"] is False else None),
-                           ws["can"] if (ws["some"] and ws["at"]) else (False if (ws["some"] is False or ws["at"] is False) else None)])
-        step = and3([st["step"], None if st["promo"] is None else (not st["promo"])])
-        ret = L.lift(p.ret)
-        if ret == sym.TRUE:
-            ok = dis["short"] is True or dis["long"] is True
-            ctx.check(ok, "king:true-justified", "king_is_legal answers true on a path where neither castling disjunct is fully established (%s)" % dis, where,
-                      sample={"case": "castle", "answer": True} if "T" not in seen else None)
-            seen.add("T")
-        elif ret == sym.FALSE:
-            ok = dis["short"] is False and dis["long"] is False and step is False
-            ctx.check(ok, "king:false-justified",
-                      "king_is_legal answers false although a disjunct of the reference function is not refuted (castles %s, step %s)" % (dis, step), where)
-            seen.add("F")
-        else:
-            ok = ret[0] == "call" and ret[1] == B + "::king_safe_on" and ret[2][1] == TO and dis["short"] is False and dis["long"] is False and step is True
-            ctx.check(ok, "king:step-residual",
-                      "king_is_legal returns %s on a path where (castles %s, ordinary step %s); required king_safe_on(mv.to) exactly when both castles are refuted and the step is admissible"
-                      % (sym.show(ret)[:120], dis, step), where, sample={"case": "king step", "returns": "king_safe_on(mv.to)"} if "S" not in seen else None)
-            seen.add("S")
-    ctx.floor("king_is_legal paths", n, 10)
-    ctx.check({"T", "F", "S"} <= seen, "king:cases", "king_is_legal lacks a castle-true, a false or a king-step path: %s" % sorted(seen), where)
+    if e == ("isempty", CHECKERS) and isinstance(v, int):
+        KS["chk_empty"] = bool(v)
+        return True
+    if e[0] == "has" and e[2] == TO and isinstance(v, int) and setalg.equivalent(e[1], step_set):
+        KS["step"] = bool(v)
+        return True
+    for w in ("short", "long"):
+        rf = ("field", rights, w)
+        pl = zob.payload(rf)
+        if is_opt_test(e, rf):
+            s_ = opt_test(e, v, rf)
+            KS["wing"][w]["some"] = None if s_ is None else (s_ == "Some")
+            return True
+        if e[0] == "bin" and e[1] in ("Eq", "Ne") and set((e[2], e[3])) == {("sq", pl, back), TO} and isinstance(v, int):
+            KS["wing"][w]["at"] = (e[1] == "Eq") == bool(v)
+            return True
+        if e[0] == "call" and e[1] == N.can_castle and isinstance(v, int) and (e[2][1] == pl or e[2][1] == ("sq", pl, back)):
+            KS["wing"][w]["can"] = bool(v)
+            KS["wing"][w]["args"] = (e[2][2], e[2][3])
+            return True
+    return None
+
+
+def check_king_is_legal(ctx, f, L):
+    """the king branch is checked as part of is_legal (check_is_legal inlines it); kept for callers that name it"""
+    ctx.ok("king-branch-read-inside-is_legal")
 
 
 PANIC_TABLE = {
@@ -409,10 +406,10 @@ def run(ctx):
     movegen.check_can_castle(ctx, f, L)
     movegen.check_king_safe_on(ctx, f, L)
     # the pawn generator delegated to is the audited one
-    movegen.compare_sites(ctx, "Pawn/nocheck", f.need(movegen.GEN["Pawn"]),
-                          movegen.extract_sites(f, L, movegen.GEN["Pawn"], {"IN_CHECK": sym.FALSE})[2], movegen.spec_sites("Pawn", False))
-    movegen.compare_sites(ctx, "Pawn/check", f.need(movegen.GEN["Pawn"]),
-                          movegen.extract_sites(f, L, movegen.GEN["Pawn"], {"IN_CHECK": sym.TRUE})[2], movegen.spec_sites("Pawn", True))
+    movegen.compare_sites(ctx, "Pawn/nocheck", f.need(movegen.gen_key(f, "Pawn")),
+                          movegen.extract_sites(f, L, movegen.gen_key(f, "Pawn"), {"IN_CHECK": sym.FALSE})[2], movegen.spec_sites("Pawn", False))
+    movegen.compare_sites(ctx, "Pawn/check", f.need(movegen.gen_key(f, "Pawn")),
+                          movegen.extract_sites(f, L, movegen.gen_key(f, "Pawn"), {"IN_CHECK": sym.TRUE})[2], movegen.spec_sites("Pawn", True))
     ctx.rule("panic-audit")
     a = panics.Audit(f).run([B + "::is_legal"])
     panics.report(ctx, a, PANIC_TABLE, "panic")
